@@ -989,6 +989,10 @@ def make_app(fn: str, args, kw=None) -> T:
     if lead and kw:
         while len(args) < len(lead) and lead[len(args)] in kw:
             args.append(as_term(kw.pop(lead[len(args)])))
+    if fn == "itertools.accumulate" and len(args) == 2 and not kw and isinstance(args[1], Sym) and args[1].name == "operator.add":
+        args = args[:1]                              # addition is accumulate's default
+    if fn == "numpy.diagonal" and len(args) == 1 and not kw:
+        return App("diagonal", (args[0],))          # np.diagonal(a) is a.diagonal()
     if fn in ("numpy.square",) and len(args) == 1:
         return mul(args[0], args[0])
     if fn in _NP_COMPARISONS and len(args) == 2 and not kw:
